@@ -2,6 +2,7 @@
 import H263V.Model.Show
 import H263V.Model.Util
 import H263V.Spec.Recon
+import H263V.Spec.AnnexA
 open H263V H263V.Util H263V.Mb H263V.Mv H263V.Rle
 
 namespace DriverUnits
@@ -124,6 +125,15 @@ def run (toks : List String) : Option String :=
       | _, _, _, _ => none)
   | ["N", mbpl, idx, cur, pv] => some (runN mbpl idx cur pv)
   | "T" :: rest => some (runT rest)
+  -- reference transform of the first block of a T line (full or sparse shape), samples clipped to -256..255
+  | "TR" :: _ :: _ :: _ :: _ :: blk :: _ =>
+    let full : Array Int := match parseBlock blk with
+      | .zero => Array.replicate 64 0
+      | .dc v => (Array.replicate 64 (0 : Int)).set! 0 v
+      | .horiz r => Array.ofFn (n := 64) fun i => if i.val / 8 = 0 then r.getD (i.val % 8) 0 else 0
+      | .vert c => Array.ofFn (n := 64) fun i => if i.val % 8 = 0 then c.getD (i.val / 8) 0 else 0
+      | .full d => d.toArray
+    some ("TR " ++ ",".intercalate ((Spec.AnnexA.refIdct full).toList.map toString))
   | _ => none
 
 end DriverUnits
